@@ -63,13 +63,19 @@ def run_read_at_times(case):
     elif repl == "sine":
         rf = gen_.buildSineWaveGenerator(3, 5)
     kw = {}
+    given = [tuple(x) for x in ivs]
+    if case.get("rotate") and len(given) > 1:
+        r = case["rotate"] % len(given)
+        given = given[r:] + given[:r]  # the caller's list is a list of disjoint intervals in any order
+        if r:
+            cl.add("intervals_not_in_time_order")
     if mode == "keep":
-        kw["keepIntervals"] = [tuple(x) for x in ivs]
+        kw["keepIntervals"] = list(given)
     elif mode == "delete":
-        kw["deleteIntervals"] = [tuple(x) for x in ivs]
+        kw["deleteIntervals"] = list(given)
     else:
-        kw["keepIntervals"] = [tuple(x) for x in ivs]
-        kw["deleteIntervals"] = [tuple(x) for x in ivs]
+        kw["keepIntervals"] = list(given)
+        kw["deleteIntervals"] = list(given)
     af = wave.open(fn, "r")
     try:
         try:
@@ -342,7 +348,8 @@ def rat_cases(draw):
     if mode in ("keep", "both") and not ivs:
         mode = "delete"
     return {"width": width, "rate": rate, "samples": samples, "intervals": ivs, "mode": mode,
-            "replacement": draw(st.sampled_from([None, None, "silence", "sine"])), "warm_up": draw(st.booleans())}
+            "replacement": draw(st.sampled_from([None, None, "silence", "sine"])), "warm_up": draw(st.booleans()),
+            "rotate": draw(st.sampled_from([0, 0, 1, 2, 3]))}
 
 
 @st.composite
